@@ -427,6 +427,11 @@ def dict_specs(n):
         yield ("pop", ki)
         yield ("pop_default", ki)
         yield ("pop_none", ki)
+        # defaults that are themselves members: the value stored under that very key,
+        # a value stored under another key, a fresh object equal to nothing
+        yield ("pop_stored", ki)
+        yield ("pop_member", ki)
+        yield ("setdefault_member", ki)
         yield ("get", ki)
         yield ("contains", ki)
     for op in ("popitem", "clear", "copy", "keys", "values", "items", "len", "eq", "update_none"):
@@ -460,6 +465,14 @@ def dict_materialize(spec, cur, mk):
     elif op in ("delitem", "pop", "pop_default", "pop_none", "get", "contains"):
         a["k"] = key_of(spec[1])
         a["default"] = ABSENT
+    elif op in ("pop_stored", "pop_member", "setdefault_member"):
+        k = key_of(spec[1])
+        a["k"] = k
+        others = [v for kk, v in cur.items() if kk != k]
+        if op == "pop_stored":
+            a["default"] = cur[k] if k in cur else mk(k)
+        else:
+            a["default"] = others[0] if others else (cur[k] if k in cur else mk(k))
     elif op.startswith("u:"):
         _, mask, nf, same_vals = spec
         d = {}
@@ -484,8 +497,10 @@ def dict_apply(op, t, a):
         return None
     if op == "pop":
         return t.pop(a["k"])
-    if op == "pop_default":
+    if op in ("pop_default", "pop_stored", "pop_member"):
         return t.pop(a["k"], a["default"])
+    if op == "setdefault_member":
+        return t.setdefault(a["k"], a["default"])
     if op == "pop_none":
         return t.pop(a["k"], None)
     if op == "get":
@@ -542,6 +557,7 @@ def dict_hint(spec):
 
 def dict_is_mutator(op):
     return op in ("setitem", "setdefault", "delitem", "pop", "pop_default", "pop_none", "popitem", "clear",
+                  "pop_stored", "pop_member", "setdefault_member",
                   "update_none") or (op.startswith("u:") and op != "u:or")
 
 
@@ -766,7 +782,7 @@ def random_dict_spec(rng, cur_len):
     if r < 0.45:
         return ("delitem", ki)
     if r < 0.55:
-        return (rng.choice(["pop", "pop_default", "pop_none"]), ki)
+        return (rng.choice(["pop", "pop_default", "pop_none", "pop_stored", "pop_member"]), ki)
     if r < 0.60:
         return ("popitem",)
     if r < 0.63:
